@@ -315,6 +315,28 @@ def jsonlReverse {α ε : Type} (parse : List Nat → Except ε α) (ignore : Bo
   consume parse ignore (reverseIterLines c bs)
 
 
+/-- what one line contributes to the sequence of `next()` results: nothing (a blank line, or an
+    undecodable one under `ignore_errors`), an object, or the error `next()` raises in strict mode —
+    after which the caller may go on calling `next()`: the line iterator has moved past the line -/
+def outcomeOf {α ε : Type} (parse : List Nat → Except ε α) (ignore : Bool) (l : List Nat) :
+    Option (Except ε α) :=
+  if lineNorm l = [] then none
+  else match parse (lineNorm l) with
+    | .ok v => some (.ok v)
+    | .error e => if ignore then none else some (.error e)
+
+/-- the result of every `next()` call until StopIteration, errors included (iteration resumed
+    after each error) -/
+def outcomes {α ε : Type} (parse : List Nat → Except ε α) (ignore : Bool) (ls : List (List Nat)) :
+    List (Except ε α) :=
+  ls.filterMap (outcomeOf parse ignore)
+
+/-- draining with a plain `for` loop: the objects before the first error, and that error -/
+def untilError {α ε : Type} : List (Except ε α) → List α × Option ε
+  | [] => ([], none)
+  | .ok v :: r => (v :: (untilError r).1, (untilError r).2)
+  | .error e :: _ => ([], some e)
+
 /-! ### JSONLIterator(rel_seek=…): start somewhere inside a text-mode file -/
 
 /-- offset of the first `\n` / `\r` in `s` (universal newlines present both to
